@@ -1524,13 +1524,15 @@ class Session(AbstractSession):
 
         left_to_inner = np.zeros(inner_length, dtype=np.int64)
         right_to_inner = np.zeros(inner_length, dtype=np.int64)
-        if left_unique is False:
-            if right_unique is False:
+        # the hints are tested by value, as in ordered_merge_left: a flag computed with numpy (np.False_ from
+        # np.all(...)) or given as 0 is not the singleton False, and 'is False' sent it to the unique-key kernels
+        if left_unique == False:
+            if right_unique == False:
                 ops.ordered_inner_map(left_data, right_data, left_to_inner, right_to_inner)
             else:
                 ops.ordered_inner_map_left_unique(right_data, left_data, right_to_inner, left_to_inner)
         else:
-            if right_unique is False:
+            if right_unique == False:
                 ops.ordered_inner_map_left_unique(left_data, right_data, left_to_inner, right_to_inner)
             else:
                 ops.ordered_inner_map_both_unique(left_data, right_data, left_to_inner, right_to_inner)
